@@ -217,6 +217,9 @@ func run(c *drv.Ctx) error {
 	if err != nil {
 		return err
 	}
+	if err := directedLineage(c, bin); err != nil {
+		return err
+	}
 	nh := c.N(28, 400)
 	seeds := make([]int64, nh)
 	for i := range seeds {
